@@ -394,7 +394,7 @@ impl Prop for C09 {
     fn cases(&self, tier: Tier, seed: u64) -> Vec<Value> {
         let mut v = Vec::new();
         for n in 1..=6usize {
-            for k in 0..tier.pick(60, 600) {
+            for k in 0..tier.pick(400, 4000) {
                 v.push(json!({"kind": "run", "peers": n, "seed": mix(seed ^ (k as u64) << 4 ^ n as u64), "gone": k % 4}));
             }
         }
